@@ -10,7 +10,7 @@
    and after every such call and the evaluator checks it is the same graph (values, shape and
    sharing; HUnchanged cases), and a race-detector build runs them concurrently on one document. *)
 From Coq Require Import Lia.
-From Verif Require Import Model.Base Model.Heap Proofs.HeapFacts.
+From Verif Require Import Model.Base Model.Heap Proofs.HeapFacts Proofs.ParseFacts.
 Open Scope list_scope.
 
 (* copying leaves every location of the source heap as it was *)
@@ -18,7 +18,7 @@ Theorem C11_copy_does_not_write : forall h v v' h',
   dense h -> closed_heap h -> (forall m, ptr_of v = Some m -> 0 <= m < Z.of_nat (length h)) ->
   copy_value h v = (v', h') ->
   forall l c, hget h l = Some c -> hget h' l = Some c.
-Proof. intros h v v' h' Hd Hc Hv E. exact (proj1 (proj2 (copy_frame_and_separation h v v' h' Hd Hc Hv E))). Qed.
+Proof. exact copy_does_not_write. Qed.
 Print Assumptions C11_copy_does_not_write.
 
 (* hence the operand's snapshot after the call is the snapshot before it *)
@@ -27,11 +27,7 @@ Theorem C11_operand_snapshot_unchanged : forall fuel h v v' h' w,
   copy_value h v = (v', h') ->
   (forall l, Reach h w l -> hget h l <> None) ->
   tree_of fuel h' w = tree_of fuel h w.
-Proof.
-  intros fuel h v v' h' w Hd Hc Hv E Hw.
-  destruct (copy_frame_and_separation h v v' h' Hd Hc Hv E) as [[new ->] _].
-  apply later_allocations_keep_snapshot. exact Hw.
-Qed.
+Proof. exact operand_snapshot_unchanged. Qed.
 Print Assumptions C11_operand_snapshot_unchanged.
 
 (* what one caller stores into its own result cannot be seen through a shared operand *)
